@@ -251,6 +251,7 @@ func genC11(t *rapid.T) *Case {
 			c.Ops = append(merged, c.Ops[pos:]...)
 		}
 	}
+	c.Ops = noOrderDependentTestaments(c.Ops)
 	c.P = map[string]V{"nA": VInt(nA)}
 	if len(c.Realms) == 2 && nA >= 3 && pct(t, 12, "reuseconfig") {
 		// The embedding application keeps one RealmConfig value: after removing B it overwrites
